@@ -23,11 +23,11 @@ let pr_cand c =
 
 (* eta.run <args> fuel_doubling fuel_binary
    -> OK dur up flat down amp cost area | ntimes times.. | namps amps..   or   ERR class *)
-let cmd_run r =
+let run_with f r =
   let a = rd_args r in
   let fd = rd_nat r in
   let fb = rd_nat r in
-  match eta fd fb a with
+  match f fd fb a with
   | Err e -> "ERR " ^ err_name e
   | OK o ->
     Printf.sprintf "OK %s %s %s %s %s %s %s" (tok_of_z o.o_dur) (pr_cand o.o_cand) (tok_of_q o.o_grad.g_area)
@@ -45,9 +45,14 @@ let cmd_find r =
 (* eta.bounds <args> -> min_duration lin_max *)
 let cmd_bounds r =
   let a = rd_args r in
-  Printf.sprintf "%s %s" (tok_of_z (min_duration a)) (tok_of_z (lin_max a))
+  Printf.sprintf "%s %s %s" (tok_of_z (min_duration a)) (tok_of_z (lin_max a)) (tok_of_z (shortest_conceivable a))
+
+let cmd_run r = run_with eta r
+(* eta.old: the search without the rescan (before repair 7df2246) *)
+let cmd_old r = run_with eta_old r
 
 let () =
   Driver.register "eta.run" cmd_run;
+  Driver.register "eta.old" cmd_old;
   Driver.register "eta.find" cmd_find;
   Driver.register "eta.bounds" cmd_bounds
